@@ -183,6 +183,15 @@ func Install(toks []Tok) *ast.Source {
 	return src
 }
 
+// InsertAtEveryGap: doc is a complete, valid document; k symbolic tokens are
+// inserted at a position that is itself case-split over 0..len(doc).
+func InsertAtEveryGap(doc []Tok, k int, alpha []Tok) []Tok {
+	g := verifrt.Split(verifrt.Int("gap_of"+strconv.Itoa(len(doc)), 0, len(doc)))
+	out := append([]Tok(nil), doc[:g]...)
+	out = append(out, SymbolicStream(k, alpha, -1)...)
+	return append(out, doc[g:]...)
+}
+
 // Rewind lets a second parse read the same stream again.
 func Rewind() { streamAt, LexCalls = 0, 0 }
 
